@@ -312,6 +312,12 @@ def str_method(I, recv, name, argexprs, scope, frame, g, hint, e):
         return to_owned(recv, getattr(I, "str_cap", None))
     if name in ("as_str", "as_ref", "deref", "borrow"):
         return recv
+    if name in ("as_bytes", "bytes", "into_bytes"):
+        o = to_owned(recv, getattr(I, "str_cap", None))
+        v = V.VecA(list(o.bytes), o.n, o.cap)
+        if name == "bytes":
+            return IterV(v.items())
+        return v
     if name == "push":
         ch = arg()
         push(I, g, recv, ch)
@@ -410,3 +416,33 @@ def merge_str(cnd, a, b):
     cap = max(a.base()[0].cap, b.base()[0].cap)
     x, y = to_owned(a, cap), to_owned(b, cap)
     return StrA([merge(cnd, p, q) for p, q in zip(x.bytes, y.bytes)], int_ite(cnd, x.n, y.n))
+
+
+def utf8_valid(vec):
+    """literal: the byte vector (over the profile's alphabet) is well-formed UTF-8"""
+    c = V.CTX.c
+    ok = T
+    for k in range(vec.cap):
+        inr = int_lt(k, vec.n)
+        b = vec.s[k]
+        if b is UNDEF:
+            continue
+        lead = c.orl([g for v, g in cases_of(b).items() if (v & 0xE0) == 0xC0])
+        cont = is_cont(b)
+        other_bad = c.orl([g for v, g in cases_of(b).items() if v >= 0x80 and (v & 0xE0) != 0xC0 and (v & 0xC0) != 0x80])
+        nxt = vec.s[k + 1] if k + 1 < vec.cap else UNDEF
+        nxt_cont = c.and2(int_lt(k + 1, vec.n), is_cont(nxt)) if nxt is not UNDEF else F
+        prv = vec.s[k - 1] if k > 0 else UNDEF
+        prv_lead = c.orl([g for v, g in cases_of(prv).items() if (v & 0xE0) == 0xC0]) if prv is not UNDEF else F
+        ok = c.and_(ok, c.implies(c.and2(inr, lead), nxt_cont), c.implies(c.and2(inr, cont), prv_lead), c.implies(inr, -other_bad))
+    return ok
+
+
+def from_utf8(vec):
+    from values import EnumV, OPQ
+    vec = vec if isinstance(vec, V.VecA) else None
+    if vec is None:
+        raise Unsupported("String::from_utf8 of a non-vector")
+    valid = utf8_valid(vec)
+    s = StrA([b if b is not UNDEF else 0 for b in vec.s], vec.n)
+    return EnumV("Result", {"Ok": (valid, (s,)), "Err": (-valid, (OPQ,))})
